@@ -414,6 +414,57 @@ def ansSet (H : Hashes) (c : Cache V) (k : Nat) (e : V) : Cache V := c.add H k e
 
 end Cache
 
+/-! ### FailureCache (middleware/cache/failure_cache.go): the production callers
+of `CompareAndSwap` / `CompareAndDelete`.  An entry is `(streak, retryAfter)`;
+times are integer nanoseconds. -/
+
+/-- `FailureCache.backoff(streak)`: `initialTTL` doubled per generation, capped at `maxTTL`. -/
+def failBackoffGo (maxT : Nat) : Nat → Nat → Nat
+  | 0, ttl => if ttl > maxT then maxT else ttl
+  | g + 1, ttl => if ttl < maxT then (if ttl > maxT / 2 then maxT else failBackoffGo maxT g (ttl * 2))
+                  else (if ttl > maxT then maxT else ttl)
+
+def failBackoff (init maxT streak : Nat) : Nat := failBackoffGo maxT (streak - 1) init
+
+/-- the entry `record` wants to publish over `cur` at time `now` -/
+def failNext (init maxT now : Nat) (cur : Nat × Nat) : Nat × Nat :=
+  let s' := if now - cur.2 ≥ maxT then 1 else cur.1 + 1
+  (s', now + failBackoff init maxT s')
+
+namespace Cache
+
+/-- `FailureCache.record`: load; absent → `Add` a first generation; still
+active → return it; expired → build the next generation and
+`CompareAndSwap(hash, current, &next)`, retrying on a lost race. -/
+def failRecord (H : Hashes) (init maxT now : Nat) (k : Nat) : Cache (Nat × Nat) → Nat → Cache (Nat × Nat) × (Nat × Nat)
+  | c, 0 => (c, (0, 0))
+  | c, f + 1 =>
+    match c.get H k with
+    | none => (c.add H k (1, now + init), (1, now + init))
+    | some cur =>
+      if now < cur.2 then (c, cur)
+      else
+        let r := c.compareAndSwap H k cur (failNext init maxT now cur)
+        if r.2 then (r.1, failNext init maxT now cur) else failRecord H init maxT now k r.1 f
+
+/-- `FailureCache.ResetQuestion` / `ResetZone`: load, then `CompareAndDelete(hash, entry)`, retrying on a lost race. -/
+def failReset (H : Hashes) (k : Nat) : Cache (Nat × Nat) → Nat → Cache (Nat × Nat) × Bool
+  | c, 0 => (c, false)
+  | c, f + 1 =>
+    match c.get H k with
+    | none => (c, false)
+    | some cur =>
+      let r := c.compareAndDelete H k cur
+      if r.2 then (r.1, true) else failReset H k r.1 f
+
+/-- `FailureCache.Lookup` (exact question): an entry is a hit only while active -/
+def failLookup (H : Hashes) (now : Nat) (c : Cache (Nat × Nat)) (k : Nat) : Option (Nat × Nat) :=
+  match c.get H k with
+  | some e => if now < e.2 then some e else none
+  | none => none
+
+end Cache
+
 /-- `ratelimit.LimiterStore`: a Go map `key → (limiter, lastSeen)` under one
 RWMutex.  The model keeps `(key, lastSeen)` pairs (the list order carries no
 meaning); the limiter's token bucket and cookie never influence the store. -/
